@@ -287,6 +287,9 @@ def handle (op : String) (args : List String) : String :=
       | .ok (e', _) => okE e'
       | .error err => "err\t" ++ err.render)
     | _, _ => bad
+  | "nf", [e] => match parseExpr e with
+    | some e => "ok\t" ++ (if nf e then "true" else "false")
+    | none => bad
   | "wfq", [e] => match parseExpr e with
     | some e => "ok\t" ++ (if wfq e then "true" else "false")
     | none => bad
